@@ -27,7 +27,6 @@ import (
 	"encoding/binary"
 	"fmt"
 	"net/netip"
-	"os"
 	"strings"
 	"testing"
 
@@ -144,12 +143,10 @@ func c01BidiSkip(c *c01Case) string {
 			return "excluded:unknown-prefix-id"
 		}
 	}
-	if c.Transport == c01ref.DTLS && c.Bidi.DstPort == 0 && os.Getenv("VERIF_C01_DTLS_OVERRIDE") == "" {
-		// dtls ClientTransport.ParseParams returns (nil, nil): its SetSessionParams ignores every
-		// override, while the station applies it. Reported to the coordinator; not asserted unless
-		// VERIF_C01_DTLS_OVERRIDE is set (then the unchanged tree fails with port:dtls:bidi-override-applied:client!=station).
-		return "excluded:dtls-client-ignores-override-params"
-	}
+	// (dtls overrides without dst_port used to be excluded: the dtls ClientTransport.ParseParams
+	// returned (nil, nil), so its SetSessionParams ignored every override while the station applied
+	// it - port:dtls:bidi-override-applied:client!=station. Repaired in /repo by a fix: commit, see
+	// known_findings.json; asserted like every other transport since.)
 	return ""
 }
 
